@@ -32,6 +32,9 @@ func (l *simLogger) Info(msg string, kv ...any)  {}
 func (l *simLogger) Warn(msg string, kv ...any)  {}
 func (l *simLogger) Debug(msg string, kv ...any) {}
 func (l *simLogger) Error(msg string, kv ...any) {
+	if os.Getenv("LAYERSIM_LOG") != "" {
+		fmt.Fprintf(os.Stderr, "[node %d] ERROR %s %v\n", l.node.Idx, msg, truncKV(kv))
+	}
 	// baseapp recovers panics of the four proposal / vote-extension handlers and only logs them
 	// ("panic recovered in runTx" is ordinary out-of-gas handling and not of interest here)
 	if strings.HasPrefix(msg, "panic recovered in PrepareProposal") || strings.HasPrefix(msg, "panic recovered in ProcessProposal") ||
@@ -165,4 +168,12 @@ func newNode(c *Chain, idx, consIdx int, cfg NodeCfg, root string) (*Node, error
 		return nil, err
 	}
 	return n, nil
+}
+
+func truncKV(kv []any) []string {
+	var out []string
+	for _, x := range kv {
+		out = append(out, truncate(fmt.Sprint(x), 300))
+	}
+	return out
 }
